@@ -12,6 +12,11 @@
   `create_ok_wf`     an accepted instance has k ≥ 1 and a word size of at least one byte, so no
                      size computation divides by zero, and k+m ≤ 32 so every bitmap shift is
                      in range;
+  `encode_too_large`, `encode_guard_exact`, `encode_guard_exact_created`
+                     the size guard of encode (internal sizes are C ints): an input is refused
+                     with EINVALIDPARAMS, before the backend is called, exactly when
+                     `len + k*(w/8) + 80 > INT_MAX`; every other length is accepted by the guard
+                     (and C01 `roundtrip_*` then covers it);
   state: `argCheck` has no access to the registry (it is a pure function of the argument
   classes), a refused create leaves the registry unchanged (C14.create_failed).
   Crash-freedom and "keeps nothing allocated" of the compiled code are runtime behaviour: every
@@ -20,6 +25,7 @@
 -/
 import LecModel.ArgCheck
 import LecModel.Create
+import LecProofs.EncodeLemmas
 import LecProps.C14
 namespace LecProps.C13
 open Lec
@@ -101,6 +107,69 @@ theorem create_ok_wf (avail : Nat → Bool) (id k m w hd : Int) (ct : Nat) (inst
   simp_all
   omega
 
+/-! ### the size guard of `liberasurecode_encode` -/
+
+/-- an input the guard refuses: EINVALIDPARAMS, whatever the backend (it is not called). -/
+theorem encode_too_large (env : Env) (be : Backend) (i : Inst) (data : Bytes)
+    (h : encodeTooLarge i data.length = true) :
+    encode env be i data = .error (.rc (-EINVALIDPARAMS)) :=
+  encode_of_tooLarge env be i data h
+
+/-- the guard in closed form: accepted exactly when length + one aligned unit + header fits an int.
+    `hfit` (one aligned unit plus a header fits; true for every created instance, see
+    `encode_guard_exact_created`) is needed only for the empty input — the model subtracts in `Nat`
+    (`encode_guard_exact_pos` needs no such bound for `0 < len`). -/
+theorem encode_guard_exact (i : Inst) (len : Nat) (hk : 0 < i.k) (hw : 8 ≤ i.w)
+    (hfit : i.k * (i.w / 8) + 80 ≤ 2147483647) :
+    encodeTooLarge i len = false ↔ len + i.k * (i.w / 8) + 80 ≤ 2147483647 :=
+  encodeTooLarge_false_iff i len hk hw hfit
+
+theorem encode_guard_exact_pos (i : Inst) (len : Nat) (hk : 0 < i.k) (hw : 8 ≤ i.w) (hlen : 0 < len) :
+    encodeTooLarge i len = false ↔ len + i.k * (i.w / 8) + 80 ≤ 2147483647 :=
+  encodeTooLarge_false_iff_pos i len hk hw hlen
+
+/-- every word size a successful backend init stores is below 64. -/
+theorem backendInit_w_le (id : Nat) (k m w hd : Int) (w' : Nat) (h : backendInit id k m w hd = some w') :
+    w' ≤ 64 := by
+  unfold backendInit at h
+  repeat' split at h
+  all_goals first
+    | (cases h; done)
+    | (simp only [Option.some.injEq] at h; omega)
+    | (dsimp only at h
+       split at h
+       · cases h
+       · rename_i hc
+         simp only [Option.some.injEq] at h
+         first
+           | omega
+           | (simp only [Bool.or_eq_true, decide_eq_true_eq, not_or] at hc; omega))
+
+/-- the closed form for every instance `create` returns. -/
+theorem encode_guard_exact_created (avail : Nat → Bool) (id k m w hd : Int) (ct : Nat) (inst : Inst)
+    (h : Lec.create avail id k m w hd ct = .ok inst) (hw : w ≤ 0 ∨ 8 ≤ w) (len : Nat) :
+    encodeTooLarge inst len = false ↔ len + inst.k * (inst.w / 8) + 80 ≤ 2147483647 := by
+  obtain ⟨hk, hw8, hkm, _, _⟩ := create_ok_wf avail id k m w hd ct inst h hw
+  have hw64 : inst.w ≤ 64 := by
+    unfold Lec.create at h
+    repeat' split at h
+    all_goals first
+      | (cases h; done)
+      | skip
+    rename_i w' hbi
+    simp only [Except.ok.injEq] at h
+    subst h
+    exact backendInit_w_le _ _ _ _ _ _ hbi
+  exact encodeTooLarge_false_iff_created inst len hk (by omega) hw8 hw64
+
+/-- non-vacuity (k = 4, w = 16: one aligned unit is 8 bytes): 2147483559 bytes pass the guard,
+    2147483560 are refused; and a created instance to which `encode_guard_exact_created` applies. -/
+example :
+    let i : Inst := { beId := 6, beVer := 0x010000, k := 4, m := 2, w := 16, ct := 2 }
+    encodeTooLarge i 2147483559 = false ∧ encodeTooLarge i 2147483560 = true ∧
+    (Lec.create (fun _ => true) 6 4 2 0 0 2).toOption = some i := by
+  decide
+
 /-- non-vacuity: concrete argument vectors. -/
 example :
     let e : ArgEnv := ⟨3, 2, 102, 34, 6, fun id => id == 0 || id == 3 || id == 6⟩
@@ -111,4 +180,8 @@ example :
 #print axioms args_refused
 #print axioms create_ok_iff
 #print axioms create_ok_wf
+#print axioms encode_too_large
+#print axioms encode_guard_exact
+#print axioms encode_guard_exact_pos
+#print axioms encode_guard_exact_created
 end LecProps.C13
